@@ -218,3 +218,100 @@ Definition check_unrel (c : unrel_case) : bool :=
   if kind =? 0 then seedkey_eqb k1 k2 && zlist_eqb d1 d2
   else if kind =? 1 then differ_in_one k1 k2 && negb (str_eqb o1 o2) && (count_eq d1 d2 <=? 2)
   else negb (seedcfg_eqb c1 c2) && seedkey_eqb k1 k2 && str_eqb o1 o2 && zlist_eqb d1 d2.
+
+(* ------------------------------------------------------------------------------------------------------------
+   the manager layer (randomness/manager.py): a registry state machine
+     manager.py 40-50   setup                     -> initial state: seed string, ONE IndexMap, no decision points
+     manager.py 67-120  get_randomness_stream     -> [RGet]: duplicates rejected (125-129), else a stream carrying the
+                                                     manager's seed, clock and index map (130-136)
+     manager.py 157-176 register_simulants        -> [RReg]: IndexMap.update on the shared map (its logic: IndexMap.v / C03)
+     stream.get_draw on a registered stream       -> [RDraw]: the block key is built from the decision point, the call's
+                                                     (clock, additional key) and the MANAGER's seed
+     manager.py 140-155 get_seed                  -> hash of (decision point, clock, seed): checked for consistency only
+   Decision points are identified by numbers (DESIGN.md section 4).  [mk] builds the block key.
+   ------------------------------------------------------------------------------------------------------------ *)
+Record mgr := { g_seed : str; g_map : imap; g_dps : list (Z * bool) }.
+
+Section Manager.
+  Variable K : Type.
+  Variable C : Type.                                  (* what a call contributes to the key: clock and additional key *)
+  Variable mk : Z -> C -> str -> K.
+  Variable block : K -> Z -> Z.
+
+  Inductive mreq :=
+    | RGet (dp : Z) (crn_init : bool)
+    | RReg (m' : list (label * Z))
+    | RDraw (dp : Z) (ca : C) (idx : list label).
+
+  Inductive mout :=
+    | OStream (seed : str)
+    | ODraws (r : result (list Z))
+    | ORefused (e : err)
+    | ODone.
+
+  Definition mgr_draw (g : mgr) (dp : Z) (ca : C) (idx : list label) : result (list Z) :=
+    match zassoc dp (g_dps g) with
+    | Some crn => get_draw K block crn (g_map g) (mk dp ca (g_seed g)) idx
+    | None => Rejected EOther                          (* no such stream object exists *)
+    end.
+
+  Definition mstep (g : mgr) (r : mreq) : mgr * mout :=
+    match r with
+    | RGet dp crn =>
+        match zassoc dp (g_dps g) with
+        | Some _ => (g, ORefused ERandomness)                                         (* 125-129 *)
+        | None => ({| g_seed := g_seed g; g_map := g_map g; g_dps := (dp, crn) :: g_dps g |}, OStream (g_seed g))
+        end
+    | RReg m' => ({| g_seed := g_seed g; g_map := step K (g_map g) (ORegister m'); g_dps := g_dps g |}, ODone)
+    | RDraw dp ca idx => (g, ODraws (mgr_draw g dp ca idx))
+    end.
+
+  Definition mrun (g : mgr) (rs : list mreq) : mgr := fold_left (fun g r => fst (mstep g r)) rs g.
+
+  (* the map-relevant part of a request history (the registrations), for C02_history_invariant *)
+  Definition map_ops (rs : list mreq) : list (op K) :=
+    flat_map (fun r => match r with RReg m' => [ORegister m'] | _ => [] end) rs.
+End Manager.
+
+Arguments RGet {C}.
+Arguments RReg {C}.
+Arguments RDraw {C}.
+
+(* correspondence stream `mgr`: a real RandomnessManager (set up through its public setup(builder)) driven by a request
+   history; the implementation's answers are attached.  MSeed: an observed get_seed(dp) at clock id [clock]. *)
+Inductive mop :=
+  | MGet (dp : Z) (crn_init : bool) (code : Z) (seed : str)
+  | MReg (m' : list (label * Z))
+  | MCall (dp : Z) (sk : Z) (idx : list label) (o : obs)
+  | MSeed (dp clock : Z) (v : Z).
+
+Definition mgr_case := (seedcfg * imap * list (Z * list (Z * Z)) * list mop)%type.
+
+(* get_seed values seen so far must be a function of (dp, clock), injective (the seed is fixed), and valid numpy seeds *)
+Definition seed_consistent (seen : list (Z * Z * Z)) (dp clock v : Z) : bool :=
+  (0 <=? v) && (v <? 4294967295) &&
+  forallb (fun t => let '(d, c, x) := t in Bool.eqb ((d =? dp) && (c =? clock)) (x =? v)) seen.
+
+Fixpoint run_mops (blk : Z -> Z -> Z) (g : mgr) (seen : list (Z * Z * Z)) (ops : list mop) : bool :=
+  match ops with
+  | [] => true
+  | MGet dp crn code seed :: r =>
+      match mstep Z Z (fun _ sk _ => sk) blk g (RGet dp crn) with
+      | (g', OStream s) => (code =? 0) && str_eqb s seed && run_mops blk g' seen r
+      | (g', ORefused ERandomness) => (code =? 1) && run_mops blk g' seen r
+      | _ => false
+      end
+  | MReg m' :: r =>
+      match g_map g with CRN _ (Some m) => extends_b m m' | _ => true end
+      && run_mops blk (fst (mstep Z Z (fun _ sk _ => sk) blk g (RReg m'))) seen r
+  | MCall dp sk idx o :: r =>
+      match mstep Z Z (fun _ sk _ => sk) blk g (RDraw dp sk idx) with
+      | (g', ODraws res) => agrees res o && run_mops blk g' seen r
+      | _ => false
+      end
+  | MSeed dp clock v :: r => seed_consistent seen dp clock v && run_mops blk g ((dp, clock, v) :: seen) r
+  end.
+
+Definition check_mgr (c : mgr_case) : bool :=
+  let '(cfg, w, tbl, ops) := c in
+  run_mops (tbl_block tbl) {| g_seed := manager_seed (fst cfg) (snd cfg); g_map := w; g_dps := [] |} [] ops.
